@@ -221,10 +221,51 @@ def run_case(tape, tier):
             return c >= len(cmds) + 1
 
     err = None
-    doist = doing.Doist(tock=1.0, real=False, limit=len(cmds) + 4)
     bdoer = boxing.BoxerDoer(boxer=boxer, tock=0.0)
+    prior = None
+    if tape.flag("prior_interrupted_run", 1, 4):
+        # BoxerDoer.enter() makes the boxwork anew each time and so cannot be entered twice; for this history the boxer is
+        # driven by the same three lines without the second make()
+        class OnceMadeBoxerDoer(doing.Doer):
+            made = False
+
+            def enter(s, *, temp=None):
+                if not s.made:
+                    boxer.make(temp=temp)
+                    type(s).made = True
+                boxer.wind(s.tymth)
+
+            def recur(s, tock=None):
+                done = yield from boxer.run(tock=tock if tock is not None else s.tock)
+                return done
+        bdoer = OnceMadeBoxerDoer(tock=0.0)
+        # history: the same boxer (and doer) already ran once and was cut off by a limit while boxes were active, after a few
+        # transitions; nothing of that run may leak into the measured one
+        k = 2 + tape.draw("prior_cycles", 4)
+        picks = [tape.draw("prior_pick", 64) for _ in range(k)]
+        prior = dict(cycles=k, picks=picks)
+
+        class Prior(doing.Doer):
+            def recur(s, tyme):
+                i = int(tyme)
+                hold.cmd.value = ("t%d" % (picks[i % len(picks)] % max(1, len(edges))),) if i < len(picks) else ()
+                hold.block.value = None
+                hold[endkey].value = False
+                return False
+        cur[0] = None
+        try:
+            doing.Doist(tock=1.0, real=False, limit=float(k)).do(doers=[Prior(tock=0.0), bdoer])
+        except Exception as ex:
+            err = "prior run: %s: %s" % (type(ex).__name__, str(ex)[:100])
+        hold.cmd.value = ()
+        hold.block.value = None
+        hold[endkey].value = False
+        res.faults["prior_run_cut_off_by_limit"] += 1
+        del trace[:]
+    doist = doing.Doist(tock=1.0, real=False, limit=len(cmds) + 4)
     try:
-        doist.do(doers=[Commander(tock=0.0), bdoer])
+        if err is None:
+            doist.do(doers=[Commander(tock=0.0), bdoer])
     except Exception as ex:
         import traceback
         tb = traceback.extract_tb(ex.__traceback__)
@@ -234,9 +275,9 @@ def run_case(tape, tier):
     res.comparisons = len(model) + 1
     got = [t for t in trace if t[0] is not None]
     res.scenario = lambda: dict(boxes=[dict(name=b["name"], over=None if b["over"] is None else boxes[b["over"]]["name"], acts=b["acts"], pre=b["pre"]) for b in boxes],
-                                edges=[(boxes[s]["name"], boxes[d]["name"], "t%d" % i) for i, (s, d) in enumerate(edges)], commands=cmds,
+                                edges=[(boxes[s]["name"], boxes[d]["name"], "t%d" % i) for i, (s, d) in enumerate(edges)], commands=cmds, prior_run=prior,
                                 trace=got[:80], model=model[:80])
-    res.scen_digest = digest(dict(b=[(b["over"], b["acts"], b["pre"]) for b in boxes], e=edges, c=cmds))
+    res.scen_digest = digest(dict(b=[(b["over"], b["acts"], b["pre"]) for b in boxes], e=edges, c=cmds, p=prior))
     res.event_digest = digest(dict(t=got, e=err))
     if err:
         res.violate("boxwork-raised", "running the boxwork raised %s" % err)
